@@ -457,7 +457,7 @@ def context_inheritance(prog, rep, rule="E3.ctx"):
     n = 0
     per = {}
     for f in sorted(prog.fns.values(), key=lambda x: x.id):
-        if f.body is None or f.file not in ("src/execution/strict.rs", "src/execution/lazy.rs"):
+        if f.body is None or not f.file.startswith(("src/execution/strict", "src/execution/lazy")):
             continue
         tr = None
         k = 0
